@@ -22,6 +22,7 @@ def run(res, programs, tier):
         if "dashu_int" in P.units:
             _r01_4(res, P, P.name)
             r01_5(res, P, P.name)
+            r01_6(res, P, P.name)
     intalg.r01_1(res, programs, "R01.1")
     intalg.r01_2(res, programs, "R01.2", "mul")
     intalg.r_sign_tables(res, programs, "R01.3", intalg.OPS)
@@ -164,3 +165,104 @@ LEVEL = LEVEL + ' Also (R19.2, shared) no arithmetic step of the integer kernels
 TECHNIQUE = 'static analysis of MIR: path-sensitive use-of-result rule (carry/borrow consumed on every path), abstract evaluation of dispatcher and estimator bodies over all length classes, finite sign tables (FDT), debug-region effect analysis'
 LEVEL = LEVEL + ' (R01.4) push_resizing, which skips a zero word, is never directly followed by another positional append on the same buffer.'
 LEVEL = LEVEL + ' (R01.5) in the signed add/sub kernel the operands are swapped exactly on the paths where the result sign is negated.'
+
+
+# ---------------------------------------------------------------------------------------------
+# R01.6  The word-level carry primitives (arch::*::add::add_with_carry / sub_with_borrow — the x86 intrinsics
+# or the portable two-step form, whichever this configuration selects): the returned flag must collect the
+# overflow of *every* word addition / subtraction of the body, the carry-in must reach both results, and no
+# step may be a wrapping / unchecked one (that is a carry dropped silently: MAX + 0 + 1).
+CARRY_PRIMS = ("add_with_carry", "sub_with_borrow")
+_FLAGGED = ("overflowing_add", "overflowing_sub", "carrying_add", "borrowing_sub")
+_INTRIN = ("_addcarry_u", "_subborrow_u", "_addcarryx_u")
+_SILENT = ("wrapping_add", "wrapping_sub", "unchecked_add", "unchecked_sub", "saturating_add", "saturating_sub",
+           "wrapping_neg", "checked_add", "checked_sub")
+
+
+def _slice_with_out_params(body, du, start):
+    """backward slice that also follows `&mut local` out-parameters (the x86 intrinsics write the sum through one)"""
+    from . import mir
+    roots = {start}
+    while True:
+        sl, _ = mir.backward_slice(body, sorted(roots))
+        # locals that are (re)borrows of a local in the slice
+        refs = set()
+        grew = True
+        while grew:
+            grew = False
+            for i, j, st in mir.iter_stmts(body):
+                if st["k"] == "as" and st["rv"]["k"] == "ref" and st["rv"].get("m") == "mut":
+                    tgt = st["rv"]["p"]["l"]
+                    if (tgt in sl or tgt in refs) and st["p"]["l"] not in refs:
+                        refs.add(st["p"]["l"])
+                        grew = True
+        new = set()
+        for bb, t, fr in mir.iter_calls(body):
+            used = set()
+            mir.walk_places(t["a"], lambda p: used.add(p["l"]))
+            if used & refs:
+                new |= used
+        if new <= roots | sl:
+            return sl
+        roots |= new
+
+
+def r01_6(res, P, cfgname, rid="R01.6"):
+    from . import mir
+    res.rule(rid, "word carry primitives: the returned flag depends on the overflow flag of every word addition / subtraction in the body, "
+                  "the carry-in reaches value and flag, and no step is a wrapping / unchecked operation")
+    n = 0
+    for f in P.fns("dashu_int"):
+        if f.get("name") not in CARRY_PRIMS or "::arch::" not in f["p"] or not f.get("mir") or f.get("kind") == "Closure":
+            continue
+        body = f["mir"]
+        du = mir.defuse_of(body)
+        n += 1
+        key = f["p"]
+        wty = body["locals"][1]["ty"]
+        # the returned tuple
+        aggs = [node for (bb, idx, node) in du.defs.get(0, []) if idx != "t" and node["k"] == "as" and node["rv"]["k"] == "agg" and len(node["rv"].get("ops", [])) == 2]
+        if len(aggs) != 1 or len(du.defs.get(0, [])) != 1:
+            res.fail(rid, cfgname, key, "%s: the result is not built as one (value, flag) pair — shape not recognised" % f["p"], mir.span_loc(f["sp"]))
+            continue
+        vloc, floc = (mir.op_local(o) for o in aggs[0]["rv"]["ops"])
+        if vloc is None or floc is None:
+            res.fail(rid, cfgname, key, "%s returns a constant component" % f["p"], mir.span_loc(f["sp"]))
+            continue
+        fslice = _slice_with_out_params(body, du, floc)
+        vslice = _slice_with_out_params(body, du, vloc)
+        bad = []
+        steps = 0
+        for bb, t, fr in mir.iter_calls(body):
+            cp = fr and (fr.get("rp") or fr["p"]) or ""
+            last = cp.rsplit("::", 1)[-1]
+            d = t["d"]["l"]
+            if last in _SILENT and ("<impl %s>" % wty) in cp:
+                bad.append("%s drops a possible carry" % cp)
+            elif last in _FLAGGED:
+                steps += 1
+                flags = [node["p"]["l"] for (b2, idx, node) in du.uses.get(d, []) if idx != "t" and node["k"] == "as" and node["rv"]["k"] == "use"
+                         and any(pr.get("k") == "f" and pr.get("i") == 1 for pr in (mir.op_place(node["rv"]["a"]) or {}).get("p", []))]
+                if not any(l in fslice for l in flags):
+                    bad.append("the overflow flag of %s does not reach the returned flag" % cp)
+            elif any(last.startswith(x) for x in _INTRIN):
+                steps += 1
+                if d not in fslice:
+                    bad.append("the carry-out of %s does not reach the returned flag" % cp)
+        for i, j, st in mir.iter_stmts(body):
+            if st["k"] == "as" and st["rv"]["k"] == "bin" and st["rv"]["op"] in ("Add", "Sub", "AddUnchecked", "SubUnchecked", "AddWithOverflow", "SubWithOverflow"):
+                l = mir.op_local(st["rv"]["a"])
+                # arithmetic in a wider type (a double-word sum whose high part is the flag) is a different, legitimate form
+                if l is not None and body["locals"][l]["ty"] == wty:
+                    bad.append("plain %s on words (overflow either panics or wraps silently; the primitive must report it in the flag)" % st["rv"]["op"])
+        if 3 not in fslice or 3 not in vslice:
+            bad.append("the carry-in (third argument) does not reach %s" % ("the returned flag" if 3 not in fslice else "the returned value"))
+        if 1 not in fslice or 2 not in fslice:
+            bad.append("an operand does not reach the returned flag")
+        if bad:
+            res.fail(rid, cfgname, key, "%s: %s" % (f["p"], "; ".join(bad)), mir.span_loc(f["sp"]))
+        else:
+            res.ok(rid, cfgname, key, sample=dict(function=f["p"], flag_steps=steps))
+    res.floor(rid, cfgname, n, 2, "carry primitives of the selected arch back-end")
+LEVEL = LEVEL + ' (R01.6) the word carry primitives of the selected arch back-end fold the overflow of every step and the carry-in into the returned flag, with no wrapping step.'
+
